@@ -284,17 +284,51 @@ def gen_history(rng, spec, pools):
         if r < 0.42 or (i == 1 and not any(e[0] == 'fit' for e in evs)):
             nm = names[int(rng.integers(0, len(names)))]
             evs.append(('fit', pools['uni_nan'] if nm == '__nan__' else pool[nm]))
-        elif r < 0.82:
+        elif r < 0.80:
             k = KINDS[kind][int(rng.integers(0, len(KINDS[kind])))]
             evs.append(('query', k, int(rng.integers(1, 4))))
-        elif r < 0.93:
+        elif r < 0.90:
             evs.append(('to_dict',))
-        else:
+        elif r < 0.95:
             evs.append(('get_instance',))
+        else:
+            evs.append(('roundtrip',))
     if kind == 'biv' and any(e[0] == 'fit' and e[1].label.startswith('monotone') for e in evs):
         # tau = 1: theta = inf / 4.5e15 / 709.78; whether brentq then fails inside percent_point is numerics (C08, F14), not life-cycle
         evs = [('query', 'cdf', e[2]) if e[0] == 'query' and e[1] in ('ppf', 'sample') else e for e in evs]
     return evs
+
+
+def scripted(pools):
+    """the witnesses of the refuted theorems and the boundary cases, in every run"""
+    u, b, t = pools['uni'], pools['biv'], pools['tab']
+    S, q = L.spec_scipy, lambda k, n=2: ('query', k, n)   # noqa: E731
+    out = []
+    for f in L.ALL_FAMILIES:      # F5: [fit const; fit X]
+        out.append((S(f), [('fit', u['const3']), q('cdf'), q('sample'), ('fit', u['G40']), q('cdf'), q('pdf'), q('ppf'), q('sample'), ('to_dict',)]))
+    out.append((S('FTrunc'), [('fit', u['X6']), ('to_dict',), ('fit', u['X6x10']), ('to_dict',), q('cdf'), ('get_instance',), ('fit', u['X6x10']), ('to_dict',)]))
+    out.append((S('FTrunc', 0.0, random_state=7), [('fit', u['X6']), ('to_dict',), ('get_instance',), ('fit', u['G40']), ('to_dict',), q('sample')]))
+    out.append((S('FKDE'), [('fit', u['N50']), ('fit', u['X6']), ('to_dict',), q('sample', 3), q('cdf'), ('get_instance',), ('fit', u['X6']), ('to_dict',)]))
+    out.append((S('FKDE'), [('fit', u['N50']), ('fit', u['const3']), ('to_dict',), q('cdf')]))
+    out.append((S('FKDE', sample_size=1), [('fit', u['N50']), q('cdf'), ('to_dict',), ('fit', u['const3']), ('to_dict',), ('fit', u['N50']), q('pdf')]))
+    out.append((S('FKDE', sample_size=5, random_state=3), [('fit', u['N50']), ('to_dict',), q('sample', 2), ('fit', u['X6']), ('to_dict',), q('sample', 2)]))
+    out.append((S('FGaussian', random_state=42), [('fit', u['X6']), q('sample'), ('get_instance',), ('fit', u['X6']), q('sample')]))
+    W = L.spec_wrapper
+    out.append((W(candidates=[('class', 'FGaussian'), ('class', 'FUniform')], selection_sample_size=3), [('fit', u['N50']), ('to_dict',), q('cdf'), ('fit', u['N50']), ('to_dict',)]))
+    out.append((W(candidates=[('class', 'FGaussian')]), [('fit', u['X6']), q('cdf'), ('fit', pools['uni_nan']), q('cdf'), ('to_dict',), q('sample'), ('fit', u['X6']), q('cdf')]))
+    out.append((W(candidates=[('class', 'FGaussian')]), [('fit', pools['uni_nan']), q('cdf'), ('to_dict',)]))
+    out.append((W(candidates=[('class', 'FGaussian'), ('class', 'FUniform')], random_state=5), [('fit', u['const3']), q('sample'), ('fit', u['U20']), q('sample'), q('sample'), ('get_instance',), q('sample')]))
+    for c in ('Clayton', 'Frank', 'Gumbel'):
+        B = L.spec_biv
+        out.append((B(c), [q('sample'), ('to_dict',), q('cdf'), q('ppf'), q('partial'), q('logpdf'), ('get_instance',)]))
+        out.append((B(c), [('fit', b['pos']), q('cdf'), ('fit', b['neg']), q('cdf'), q('sample'), ('to_dict',)]))
+        out.append((B(c), [('fit', b['pos']), ('fit', b['constcol']), q('cdf'), ('to_dict',), q('sample')]))
+        out.append((B(c, random_state=2), [('fit', b['tau0']), q('cdf'), q('pdf'), q('sample'), ('to_dict',), ('fit', b['pos2']), q('sample')]))
+        out.append((B(c), [('fit', b['constcol']), q('cdf'), q('sample'), ('to_dict',), ('fit', b['outside']), ('fit', b['empty']), ('to_dict',)]))
+    G = L.spec_gm
+    out.append((G(distribution=('class', 'FGaussian')), [('fit', t['t3']), ('to_dict',), ('fit', t['empty']), ('fit', t['strings']), ('fit', t['nan']), ('to_dict',), q('sample')]))
+    out.append((G(), [('fit', t['empty']), q('pdf'), ('to_dict',), ('fit', t['tc']), q('pdf'), ('fit', t['t2']), ('to_dict',)]))
+    return [(spec, evs) for spec, evs in out if all(e[0] != 'fit' or usable(spec, e[1]) for e in evs)]
 
 
 def first_diff(model, real):
@@ -309,7 +343,7 @@ def corr(ctx, n_per_kind):
     nprng = np.random.default_rng(ctx.seed + 19)
     pools = {'uni': uni_pool(nprng), 'biv': biv_pool(nprng), 'tab': table_pool(nprng),
              'uni_nan': L.Uni([1.0, np.nan, 3.0], 'with-nan')}
-    plans = []
+    plans = scripted(pools)
     for kind, specs in (('scipy', scipy_specs()), ('wrapper', wrapper_specs()), ('biv', biv_specs()), ('gm', gm_specs())):
         n = n_per_kind[kind]
         order = list(range(len(specs)))
@@ -354,20 +388,20 @@ def corr(ctx, n_per_kind):
             k = first_diff(model, real) if model is not None else None
             what = (f'{desc}: model and library disagree at step {k} ({hist[k] if k is not None and k < len(hist) else "?"}) of history {hist}: '
                     f'model {model[k] if model and k is not None and k < len(model) else o} vs library {real[k] if k is not None and k < len(real) else None}')
-            ctx.violation(f'corr:lifecycle:{spec["kind"]}:{spec.get("family", spec.get("ctype", ""))}', what[:1500],
+            ctx.violation(f'corr:lifecycle:{spec["kind"]}:{spec.get("family", spec.get("ctype", "any"))}', what[:1500],
                           {'object': desc, 'history': hist, 'step': k, 'model': str(model)[:3000], 'library': str(real)[:3000],
-                           'repro': repro_history(spec, evs, k)})
+                           'repro': repro_history(spec, evs, k, model)})
         elif bad_values:
-            ctx.violation(f'corr:value:{spec["kind"]}:{spec.get("family", spec.get("ctype", ""))}',
+            ctx.violation(f'corr:value:{spec["kind"]}:{spec.get("family", spec.get("ctype", "any"))}',
                           f'{desc}: the values returned at steps {bad_values} of {hist} are not those of the behaviour observed at the '
-                          f'scipy boundary', {'object': desc, 'history': hist, 'repro': repro_history(spec, evs, bad_values[0])})
+                          f'scipy boundary', {'object': desc, 'history': hist, 'repro': repro_history(spec, evs, bad_values[0], model)})
     ctx.extra['history_event_mix'] = mix
     ctx.extra['histories'] = len(runs)
 
 
-def repro_history(spec, evs, step):
-    """self-contained replay of one history: prints the library's canonical trace; exits 1 (a model/implementation
-    disagreement cannot be re-decided without Coq: re-run ./check C19)"""
+def repro_history(spec, evs, step, model=None):
+    """self-contained replay of one history: re-runs it on the library and compares the canonical trace with the model's
+    trace recorded at check time (exit 1 iff they still differ)"""
     data = []
     for e in evs:
         if e[0] == 'fit':
@@ -375,23 +409,27 @@ def repro_history(spec, evs, step):
             if isinstance(d, L.Table):
                 data.append(('fit', 'table', d.label, json.loads(d.frame.to_json(orient='split')) if hasattr(d.frame, 'to_json') else d.frame.tolist()))
             else:
-                data.append(('fit', 'array', d.label, [[None if np.isnan(v) else float(v) for v in row] for row in np.atleast_2d(d.x).tolist()]
+                data.append(('fit', 'array', d.label, [[None if np.isnan(v) else float(v) for v in row] for row in d.x.tolist()]
                              if d.x.ndim == 2 else [None if np.isnan(v) else float(v) for v in d.x.tolist()]))
         else:
             data.append(e)
-    return ('import json, sys, numpy as np, pandas as pd\nfrom vf import lifecycle as L\n'
+    return ('import json, sys, numpy as np, pandas as pd\nfrom vf import lifecycle as L\nnan, inf = float("nan"), float("inf")\n'
             f'spec = {spec!r}\nraw = json.loads({json.dumps(json.dumps(data))})\n'
+            f'model = {model!r}\n'
             'evs = []\nfor e in raw:\n'
             '    if e[0] == "fit" and e[1] == "table":\n'
             '        f = pd.DataFrame(e[3]["data"], columns=e[3]["columns"]) if isinstance(e[3], dict) else np.array(e[3])\n'
             '        evs.append(("fit", L.Table(f, e[2])))\n'
             '    elif e[0] == "fit":\n'
-            '        a = np.array([[np.nan if v is None else v for v in r] for r in e[3]]) if e[3] and isinstance(e[3][0], list) else np.array([np.nan if v is None else v for v in e[3]], dtype=float)\n'
+            '        a = np.array([[np.nan if v is None else v for v in r] for r in e[3]], dtype=float).reshape(-1, 2) if spec["kind"] == "biv" else np.array([np.nan if v is None else v for v in e[3]], dtype=float)\n'
             '        evs.append(("fit", L.Biv(a, e[2]) if spec["kind"] == "biv" else L.Uni(a, e[2])))\n'
             '    else:\n        evs.append(tuple(e))\n'
             'r = L.Runner().run(spec, evs)\n'
             'for i, t in enumerate(r["trace"]):\n    print(i, L.describe_event(evs[i]), t)\n'
-            f'print("disagreement with the Coq model at step {step}; value checks:", r["value_checks"])\nsys.exit(1)\n')
+            'bad = [s for s, ok in r["value_checks"] if not ok]\n'
+            'd = L.explain_diff(model, r["trace"]) if model is not None else None\n'
+            f'print("model (recorded by ./check C19) vs library, first difference:", d, "| value-check failures:", bad)\n'
+            'sys.exit(1 if (d or bad or model is None) else 0)\n')
 
 
 # =====================================================================================================
@@ -688,6 +726,13 @@ def unfitted_oracle():
         objs.append((cls.__name__ + '(random_state=3)', cls.__name__, lambda cls=cls: cls(random_state=3), biv_calls))
         objs.append((f'Bivariate(copula_type={cls.__name__.lower()!r})', cls.__name__,
                      lambda cls=cls: Bivariate(copula_type=cls.__name__.lower()), biv_calls))
+    for cls in (Clayton, Frank, Gumbel):
+        # the guard is `not self.theta`: a copula whose theta is 0 (Clayton fitted on tau = 0 data, F14a) counts as unfitted
+        def mk0(cls=cls):
+            c = cls()
+            c.theta, c.tau = 0, 0.0
+            return c
+        objs.append((cls.__name__ + '[theta=0]', cls.__name__, mk0, {k: v for k, v in biv_calls.items() if k != 'to_dict'}))
     objs.append(('GaussianMultivariate', 'GaussianMultivariate', GaussianMultivariate, multi_calls))
     objs.append(('GaussianMultivariate(random_state=3)', 'GaussianMultivariate', lambda: GaussianMultivariate(random_state=3), multi_calls))
     for vt in ('center', 'direct', 'regular'):
@@ -714,7 +759,7 @@ def unfitted_oracle():
                     key = f'unfitted:{base}.{meth}:{got}'
                 bad.append((key, f'unfitted {name}.{meth}(...) {"raises " + got if r[0] == "err" else "returns " + str(r[1])[:60]} '
                             'instead of raising NotFittedError', {'object': name, 'method': meth, 'repro': _replay('P.unfitted_oracle()[0]', key)}))
-            elif moved:
+            elif moved and '[theta=0]' not in name:
                 key = f'unfitted:{base}.{meth}:consumes-global-generator'
                 bad.append((key, f'unfitted {name}.{meth} advanced the global generator before raising',
                             {'object': name, 'method': meth, 'repro': _replay('P.unfitted_oracle()[0]', key)}))
